@@ -31,6 +31,10 @@ class IterSrc:
 class CallMixin:
     # ---------------------------------------------------------------- iteration
     def iter_source(self, node, st, v) -> IterSrc:
+        if isinstance(v, Val) and isinstance(v.sort, OptSort) and isinstance(v.sort.inner, (ListSort, SetSort, DictSort)):
+            # iterating an Optional[container]: a TypeError unless it is not None here
+            self.oblige(st, "safe", f"not-none@{getattr(node, 'lineno', 0)}:iter", z3.Not(v.t[0]), node)
+            v = self.named(st, opt_val(v))        # named: its components are ite-terms, which patterns cannot contain
         if isinstance(v, Val) and isinstance(v.sort, ListSort):
             return IterSrc(v.t[0], lambda i: list_get(v, i), "list", None)
         if isinstance(v, Val) and isinstance(v.sort, DictSort):
